@@ -75,17 +75,17 @@ func exportedTable(c *Ctx) {
 		run.Undecided("G-EXPORTED", "template", "internal/template/template.go", err.Error())
 		return
 	}
-	fl := src.Funcs["Exported"]
+	fl, flPos, _ := src.FuncValue("Exported")
 	if fl == nil {
 		run.Undecided("G-EXPORTED", "role", "internal/template/template.go", "the template function map has no entry \"Exported\" (the function that turns parameter names into record field names)")
 		return
 	}
-	pos := c.Prog.Pos(fl.Pos())
+	pos := c.Prog.Pos(flPos)
 	// the template must use it for every record field spelling: checked by K-RECORD/literal on the skeletons
 	// ---- empty string
 	{
 		m := interp.New(c.Prog)
-		v, err := m.Call(fl.Pos(), &interp.Closure{Lit: fl, Info: src.FuncsInfo}, []interp.Value{interp.Lit("")})
+		v, err := m.Call(flPos, fl, []interp.Value{interp.Lit("")})
 		s, _ := v.(*interp.Sym)
 		cs, conc := "", false
 		if s != nil {
@@ -114,7 +114,7 @@ func exportedTable(c *Ctx) {
 	for {
 		m := interp.New(c.Prog)
 		m.Choices = choices
-		v, err := m.Call(fl.Pos(), &interp.Closure{Lit: fl, Info: src.FuncsInfo}, []interp.Value{arg})
+		v, err := m.Call(flPos, fl, []interp.Value{arg})
 		if err != nil {
 			p := pos
 			if u, ok := err.(*interp.ErrUndecided); ok && u.Pos.IsValid() {
@@ -169,6 +169,10 @@ func exportedTable(c *Ctx) {
 			cs := ""
 			if s != nil {
 				cs, _ = s.Concrete()
+			}
+			// returning the case-folded name on the path where it equals the initialism returns the initialism
+			if u, ok := p.ret.(*interp.Unknown); ok && u.Why == upper {
+				cs = trueConst[0]
 			}
 			run.Check("G-EXPORTED/table", "initialism:"+trueConst[0], pos, cs == trueConst[0], fmt.Sprintf("for a name equal to %q ignoring case Exported returns %s, want %q", trueConst[0], interp.Show(p.ret), trueConst[0]))
 		default:
